@@ -534,7 +534,7 @@ def gammatone_goals(G, np, cfg, bank, fi, rng, F=None):
             for part, lem, val in (("fst", "gt_h_re", v.real), ("snd", "gt_h_im", v.imag)):
                 proof = (
                     "stage_%s. unfold src_eps in *. rewrite (gt_ir_periods _ _ _ _ _ _ _ _ (%d) (%d)); "
-                    "[ | cbn [fst snd]; apply Zfloor_eq; split; interval | cbn [fst snd]; apply Zceil_eq; split; interval ].\n"
+                    "[ | cbn [fst snd]; apply Zfloor_eq; split; first [lra | interval] | cbn [fst snd]; apply Zceil_eq; split; first [lra | interval] ].\n"
                     % (uid, plo, phi)
                     + "expand_sum. rewrite ?%s.\n" % lem
                 )
